@@ -1,5 +1,5 @@
-//! property: C20
-//! unit: V-C20-modal-class
+//! property: C14
+//! unit: V-C14-modal-class
 //! tier: quick
 //! fns: linfa_trees::decision_trees::algorithm::find_modal_class (the fold step over the label-frequency hash map; the result must not depend on the map's iteration order)
 //@ extract STEP from algorithms/linfa-trees/src/decision_trees/algorithm.rs anchor ".fold(None, |acc, (idx, freq)| match acc {" block after "fn find_modal_class<L: Label>"
